@@ -154,12 +154,14 @@ def c16(tier, seed):
         return [
             Run("heap", "debug", ["prop=C16", "--flavours", HEAP16], shards=8),
             Run("heap", "miri", ["prop=C16", "--flavours", "HeapTok,u64,ZTok", "--maxn", "2"], shards=16, label="heap/miri(N<=2)"),
+            Run("heap", "nightly", ["prop=C16", "--flavours", "u64,Tok,ZTok", "--maxn", "3", "--part", "allocfail_unwind"], shards=8, label="heap/nightly(unwinding alloc-error hook,N<=3)"),
         ]
     return [
         Run("heap", "debug", ["prop=C16", "--flavours", HEAP16], shards=16),
         Run("heap", "release", ["prop=C16", "--flavours", HEAP16], shards=16),
         Run("heap", "miri", ["prop=C16", "--flavours", "HeapTok,u8,u64,ZTok,(),[u64;3]", "--maxn", "8"], shards=32, label="heap/miri(N<=8)"),
         Run("heap", "asan", ["prop=C16", "--flavours", "HeapTok,u64,ZTok"], shards=8),
+        Run("heap", "nightly", ["prop=C16", "--flavours", HEAP16, "--part", "allocfail_unwind"], shards=16, label="heap/nightly(unwinding alloc-error hook)"),
     ]
 
 
